@@ -6,130 +6,7 @@ use std::marker::PhantomData;
 verus! {
 //@ include units/common/float.inc.rs
 //@ include units/dep_order/spec.inc.rs
-// =====================================================================================================
-// CODE UNDER CONTRACT (extracted from /repo/layout21utils/src/dep_order.rs on every run)
-// =====================================================================================================
-pub trait DepOrder: Sized {
-//@ item layout21utils/src/dep_order.rs :: trait DepOrder :: type Item
-//@   sub R4 / \+ std::fmt::Debug/ =>
-//@ end
-//@ item layout21utils/src/dep_order.rs :: trait DepOrder :: type Error
-//@ end
-    // R8: ghost members — the dependency relation the implementor's `process` walks, and faithfulness of `clone`
-    spec fn deps(item: Self::Item) -> Set<Self::Item>;
-    proof fn clone_faithful(a: Self::Item, b: Self::Item)
-        requires cloned(a, b) ensures a == b;
-    // NOT extracted: the default method `DepOrder::order` (one line: `DepOrderer::<Self>::order(items)`); Verus rejects a trait
-    // default body that instantiates DepOrderer<Self> as a cyclic self-reference.  Its callee is proved below.
-//@ fn layout21utils/src/dep_order.rs :: trait DepOrder :: fn process
-//@   ret r
-//@   spec
-//|         requires inv_raw(old(orderer).stack@, old(orderer).seen@, old(orderer).pending@, |i: Self::Item| Self::deps(i)),
-//|             old(orderer).pending@.contains(*item), obeys_key_model::<Self::Item>(),
-//|         ensures r is Ok ==> (inv_raw(final(orderer).stack@, final(orderer).seen@, final(orderer).pending@, |i: Self::Item| Self::deps(i))
-//|             && old(orderer).stack@.is_prefix_of(final(orderer).stack@)
-//|             && final(orderer).pending@ == old(orderer).pending@
-//|             && Self::deps(*item).subset_of(final(orderer).seen@))
-//@ end
-//@ fn layout21utils/src/dep_order.rs :: trait DepOrder :: fn fail
-//@   ret r
-//@   spec
-//|         ensures r is Err
-//@ end
-}
-//@ item layout21utils/src/dep_order.rs :: struct DepOrderer
-//@   pubfields
-//@ end
-impl<P: DepOrder> DepOrderer<P> {
-//@ fn layout21utils/src/dep_order.rs :: impl<P: DepOrder> DepOrderer<P> :: fn order
-//@   ret r
-//@   spec
-//|         requires obeys_key_model::<P::Item>(),
-//|         ensures r is Ok ==> is_dep_ordering(r->Ok_0@, items@, |i: P::Item| P::deps(i)),
-//@   before /Push it each item in/
-//|         proof {
-//|             assert(this.stack@.to_set() =~= Set::<P::Item>::empty());
-//|         }
-//@   loop 1 iter it
-//|             invariant
-//|                 obeys_key_model::<P::Item>(),
-//|                 inv_raw(this.stack@, this.seen@, this.pending@, |i: P::Item| P::deps(i)),
-//|                 this.pending@ =~= Set::<P::Item>::empty(),
-//|                 forall|k: int| 0 <= k < it.index@ ==> this.seen@.contains(#[trigger] items@[k]),
-//@   before /this\.push\(item\)\?;/
-//|             let ghost before = this.stack@;
-//|             let ghost before_seen = this.seen@;
-//@   loopend 1
-//|             proof {
-//|                 assert forall|k: int| 0 <= k < it.index@ implies this.seen@.contains(#[trigger] items@[k]) by {
-//|                     assert(before_seen.contains(items@[k]));
-//|                     assert(before.contains(items@[k]));
-//|                     let idx = choose|q: int| 0 <= q < before.len() && before[q] == items@[k];
-//|                     assert(this.stack@[idx] == items@[k]);
-//|                     assert(this.stack@.contains(items@[k]));
-//|                 }
-//|             }
-//@   before /And return its ordered stack/
-//|         proof {
-//|             let d = |x: P::Item| P::deps(x);
-//|             assert forall|i: int| 0 <= i < this.stack@.len() implies (#[trigger] d(this.stack@[i])).subset_of(this.stack@.take(i).to_set()) by {
-//|                 assert(d(this.stack@[i]).subset_of(this.stack@.take(i).to_set()));
-//|             }
-//|             assert forall|k: int| 0 <= k < items@.len() implies this.stack@.contains(#[trigger] items@[k]) by {
-//|                 assert(this.seen@.contains(items@[k]));
-//|             }
-//|         }
-//@ end
-//@ fn layout21utils/src/dep_order.rs :: impl<P: DepOrder> DepOrderer<P> :: fn push
-//@   ret r
-//@   spec
-//|         requires inv_raw(old(self).stack@, old(self).seen@, old(self).pending@, |i: P::Item| P::deps(i)), obeys_key_model::<P::Item>(),
-//|         ensures r is Ok ==> (inv_raw(final(self).stack@, final(self).seen@, final(self).pending@, |i: P::Item| P::deps(i))
-//|             && old(self).stack@.is_prefix_of(final(self).stack@)
-//|             && final(self).pending@ == old(self).pending@
-//|             && final(self).seen@.contains(*item)),
-//|             // the cycle detector: re-entering an item whose dependencies are still being visited is an error
-//|             (old(self).pending@.contains(*item) && !old(self).seen@.contains(*item)) ==> r is Err,
-//@   before /Depth-first search dependent/
-//|         proof {
-//|             assert forall|a: &P::Item, b: P::Item| #[trigger] call_ensures(<P::Item as Clone>::clone, (a,), b) implies *a == b by { P::clone_faithful(*a, b); }
-//|         }
-//@   after /self\.pending\.insert\(item\.clone\(\)\);/
-//|             proof { assert(self.pending@ == old(self).pending@.insert(*item)); }
-//@   after /P::process\(item, self\)\?;/
-//|             let ghost after = *self;
-//@   before /And insert the Item itself/
-//|             proof {
-//|                 assert(self.pending@ =~= old(self).pending@);
-//|                 assert(!after.seen@.contains(*item));
-//|             }
-//@   after /self\.stack\.push\(item\.clone\(\)\);/
-//|             proof {
-//|                 let s2 = after.stack@;
-//|                 let s3 = self.stack@;
-//|                 assert(s3 == s2.push(*item));
-//|                 assert(!s2.contains(*item)) by { if s2.contains(*item) { assert(s2.to_set().contains(*item)); } }
-//|                 lemma_push_no_dup(s2, *item);
-//|                 lemma_push_to_set(s2, *item);
-//|                 assert(self.seen@ =~= s3.to_set());
-//|                 let d = |x: P::Item| P::deps(x);
-//|                 assert(inv_raw(s2, after.seen@, after.pending@, d));
-//|                 assert forall|i: int| 0 <= i < s3.len() implies (#[trigger] d(s3[i])).subset_of(s3.take(i).to_set()) by {
-//|                     if i < s2.len() {
-//|                         assert(s3.take(i) =~= s2.take(i));
-//|                         assert(s3[i] == s2[i]);
-//|                         assert(d(s2[i]).subset_of(s2.take(i).to_set()));
-//|                     } else {
-//|                         assert(s3.take(i) =~= s2);
-//|                         assert(s3[i] == *item);
-//|                         assert(d(*item) == P::deps(*item));
-//|                     }
-//|                 }
-//|                 assert(old(self).stack@.is_prefix_of(s3)) by { assert(old(self).stack@.is_prefix_of(s2)); }
-//|             }
-//@ end
-}
-
+//@ include units/dep_order/code.inc.rs
 // vacuity canaries
 proof fn canary_inv<T>(stack: Seq<T>, seen: Set<T>, pending: Set<T>, deps: spec_fn(T) -> Set<T>, x: T)
     requires inv_raw(stack, seen, pending, deps), pending.contains(x), stack.len() >= 2,
